@@ -242,6 +242,10 @@ def run_suites(ctx, exe, cases):
             asts, idxs = [], []
             for i, (m, p) in enumerate(zip(metas, v['probes'])):
                 own = v['own'] if i == 0 else None
+                if 'ref' in m:
+                    # a PRINT of several values: probe i is judged against the i-th value
+                    o = v['own']
+                    own = (['vals', [o[1][m['ref']]]] if o[0] == 'vals' and len(o[1]) > m['ref'] else o)
                 ctx.bump('probe:' + m['tag'].split(',')[0] + ':' + p['out'][0])
                 if m['expect'] == 'error':
                     nerr += 1
